@@ -454,13 +454,14 @@ func (i *interpreter) decimal(v value) []value {
 	}
 	// case split on the digit count (1..4), digits are fresh bytes tied to the
 	// value by a linear constraint (multiplication by constants only)
-	pow := []uint64{1, 10, 100, 1000, 10000}
-	for d := 1; d <= 4; d++ {
-		if d < 4 && !ps.branch(tt.bvcmp("bvult", t, tt.BV(64, pow[d]))) {
+	pow := []uint64{1, 10, 100, 1000, 10000, 100000, 1000000, 10000000, 100000000, 1000000000, 10000000000}
+	const maxD = 10
+	for d := 1; d <= maxD; d++ {
+		if d < maxD && !ps.branch(tt.bvcmp("bvult", t, tt.BV(64, pow[d]))) {
 			continue
 		}
-		if d == 4 {
-			if !ps.branch(tt.bvcmp("bvult", t, tt.BV(64, pow[4]))) {
+		if d == maxD {
+			if !ps.branch(tt.bvcmp("bvult", t, tt.BV(64, pow[maxD]))) {
 				// large: fall back to case splitting on the value
 				c := ps.pickValue(t)
 				return append(out, bytesOf(strconv.FormatUint(c, 10))...)
